@@ -109,7 +109,7 @@ def main():
     na = [{"property_id": i, "reason": NOT_YET.get(i, "check not built yet in this round (design exists in DESIGN.md section 4); nothing is claimed until its harness exists and has been validated")} for i in ids if i not in CHECKS]
     m = {
         "version": 1,
-        "setup_cmd": "cd /verif/harness && CARGO_NET_OFFLINE=true cargo build --release -p vcheck && CARGO_NET_OFFLINE=true cargo build --profile checked -p vcheck && CARGO_NET_OFFLINE=true cargo build --release -p chess-bot && CARGO_NET_OFFLINE=true cargo build --release --manifest-path /repo/Cargo.toml -p chess-cli",
+        "setup_cmd": "cd /verif/harness && CARGO_NET_OFFLINE=true cargo build --release -p vcheck && CARGO_NET_OFFLINE=true cargo build --profile checked -p vcheck && CARGO_NET_OFFLINE=true cargo build --release -p chess-bot && ([ -f /repo/Cargo.lock ] || cp /verif/harness/repo-Cargo.lock /repo/Cargo.lock) && CARGO_NET_OFFLINE=true cargo build --release --manifest-path /repo/Cargo.toml -p chess-cli",
         "hooks": {
             "guard": "rustyyato_chess_verif",
             "enable": "no hooks are needed: every observation point is public API; checks build /repo's crates as path dependencies of /verif/harness (RUSTFLAGS would carry --cfg rustyyato_chess_verif if a hook is ever added)",
